@@ -32,6 +32,29 @@ fn parse_tuple(text: &str, o: Options, in_key: bool) -> Tuple {
 	}
 }
 
+/// outcome tuple of a whole document (Sweeps!DocTuple): fragments and the span of the last one, or the error
+fn doc_tuple(text: &str, slice: bool) -> Tuple {
+	let r = if slice { guarded(|| Value::parse_slice(text.as_bytes())) } else { guarded(|| Value::parse_str(text)) };
+	match r {
+		Err(_) => ("panic".into(), vec![-1, -1, -1]),
+		Ok(Ok((_, cm))) => {
+			let n = cm.len();
+			match cm.as_slice().last() {
+				Some(e) => ("ok".into(), vec![n as i64, e.span.start() as i64, e.span.end() as i64]),
+				None => ("ok".into(), vec![0, -1, -1]),
+			}
+		}
+		Ok(Err(e)) => {
+			let j = project_err(&e);
+			match j["kind"].as_str().unwrap() {
+				"unexpected" => ("unexpected".into(), vec![j["pos"].as_i64().unwrap(), j["ch"].as_i64().unwrap(), -1]),
+				"surrogate" => (j["variant"].as_str().unwrap().into(), vec![j["units"][0].as_i64().unwrap(), j["units"].get(1).and_then(|u| u.as_i64()).unwrap_or(-1), -1]),
+				k => (k.into(), vec![-1, -1, -1]),
+			}
+		}
+	}
+}
+
 fn hex4(x: u32, upper: bool) -> String {
 	if upper {
 		format!("{:04X}", x)
@@ -124,6 +147,30 @@ fn sweeps(thorough: bool) -> Vec<Sweep> {
 			})
 		}),
 	});
+	// every scalar in each syntactic context, through the string and the byte-slice entry points
+	let contexts: [(&str, &str, &str); 15] = [
+		("str_then_item", "[\"", "\",1]"), ("after_int", "[1", "]"), ("value_start", "[", "]"), ("after_comma", "[1,", "]"), ("after_key", "{\"a\"", ":1}"),
+		("after_member", "{\"a\":1", "}"), ("in_literal", "[tru", "]"), ("after_minus", "[-", "]"), ("after_point", "[1.", "5]"), ("after_exp", "[1e", "1]"),
+		("after_zero", "[0", "]"), ("top", "", ""), ("after_top_num", "1", ""), ("after_top_val", "[]", ""), ("obj_start", "{", "}"),
+	];
+	for (name, pre, post) in contexts {
+		for slice in [false, true] {
+			// the slice entry point for the contexts where byte positions matter most; the string entry point for all
+			if slice && !matches!(name, "str_then_item" | "after_int" | "top" | "after_key") {
+				continue;
+			}
+			v.push(Sweep { sw: json!(["ctx", name, slice]), lo: 0, hi: if thorough || !slice { 0x10ffff } else { 0x2ffff }, f: Box::new(move |x| ch(x).map(|c| doc_tuple(&format!("{pre}{c}{post}"), slice))) });
+		}
+	}
+	// compact text of a string / key beyond the inline capacity, through String::from and to_string
+	v.push(Sweep { sw: json!(["print_long_str"]), lo: 0, hi: 0x10ffff, f: Box::new(move |x| ch(x).map(|c| {
+		let t: String = Value::String(format!("aaaaaaaaaaaaaaaaaaaa{c}").into()).into();
+		("text".to_string(), pad(&t.chars().skip(21).collect::<String>(), 9))
+	})) });
+	v.push(Sweep { sw: json!(["print_long_key"]), lo: 0, hi: 0x10ffff, f: Box::new(move |x| ch(x).map(|c| {
+		let o: json_syntax::Object = vec![Entry::new(format!("aaaaaaaaaaaaaaaaaaaa{c}").as_str().into(), Value::Null)].into_iter().collect();
+		("text".to_string(), pad(&Value::Object(o).to_string().chars().skip(22).collect::<String>(), 14))
+	})) });
 	// the width attributed to every scalar by the layout decision: the smallest Limit::Width under which the one-line
 	// form is kept (scanned upwards from 4: no one-character string in brackets is narrower than 5)
 	fn min_inline(v: &Value, obj: bool) -> i64 {
